@@ -6,9 +6,8 @@ namespace SaVerif.Like
 open SaVerif.Gen.LikeDefaults
 
 /-- the regenerated constants have the shape the lemmas below are about; a source edit
-    that changes the tuple or the replace chain makes this `decide` (and so every
-    theorem built on it) fail -/
-theorem gen_table : noDouble = ['%', '_'] ∧ escapedChars = ['%', '_'] := by
+    that changes the escaped set makes this `decide` (and so every theorem built on it) fail -/
+theorem gen_table : escapedChars = ['%', '_'] ∧ escapesEscape = true := by
   decide
 
 /-- the regenerated default escape is an ordinary, caseless character (any such
@@ -19,20 +18,7 @@ theorem gen_default :
       ¬ (97 ≤ defaultEscape.toNat ∧ defaultEscape.toNat ≤ 122) := by
   decide
 
-theorem escapeLike_unfold (esc : Char) (other : List Char) :
-    escapeLike esc other =
-      replace1 '_' [esc, '_'] (replace1 '%' [esc, '%']
-        (if esc ≠ '%' ∧ esc ≠ '_' then replace1 esc [esc, esc] other else other)) := by
-  simp only [escapeLike, gen_table.1, gen_table.2, List.foldl]
-  by_cases h1 : esc = '%'
-  · subst h1; simp
-  · by_cases h2 : esc = '_'
-    · subst h2; simp
-    · have a : ¬ ('%' = esc) := fun h => h1 h.symm
-      have b : ¬ ('_' = esc) := fun h => h2 h.symm
-      simp [h1, h2, a, b]
-
-/-! ## the ideal one-pass escaping and its relation to the three `replace` calls -/
+/-! ## the escaping -/
 
 /-- what autoescape is meant to produce: every `%`, `_` and escape character is
     preceded by one escape character, in a single pass -/
@@ -40,72 +26,30 @@ def lit (esc : Char) : List Char → List Char
   | [] => []
   | c :: cs => if c = esc ∨ c = '%' ∨ c = '_' then esc :: c :: lit esc cs else c :: lit esc cs
 
-theorem replace1_append (o : Char) (n a b : List Char) :
-    replace1 o n (a ++ b) = replace1 o n a ++ replace1 o n b := by
-  induction a with
-  | nil => rfl
-  | cons c cs ih =>
-    simp only [List.cons_append, replace1]
-    split <;> simp [ih]
-
-/-- ordinary escape characters: the three replaces equal the one-pass escaping -/
-theorem escapeLike_eq_lit_ordinary (esc : Char) (h1 : esc ≠ '%') (h2 : esc ≠ '_') (p : List Char) :
-    escapeLike esc p = lit esc p := by
-  have e : escapeLike esc p =
-      replace1 '_' [esc, '_'] (replace1 '%' [esc, '%'] (replace1 esc [esc, esc] p)) := by
-    simp [escapeLike_unfold, h1, h2]
-  rw [e]
-  clear e
+/-- the code is the specification, for every escape character -/
+theorem escapeLike_eq_lit (esc : Char) (p : List Char) : escapeLike esc p = lit esc p := by
   induction p with
   | nil => rfl
   | cons c cs ih =>
-    by_cases hc : c = esc
-    · subst hc
-      simp [replace1, lit, h1, h2, ih]
-    · by_cases hp : c = '%'
-      · subst hp
-        have : ('%' : Char) ≠ '_' := by decide
-        simp [replace1, lit, hc, ih, h2, this]
-      · by_cases hu : c = '_'
-        · subst hu
-          simp [replace1, lit, hc, hp, ih]
-        · simp [replace1, lit, hc, hp, hu, ih]
-
-/-- `escape="%"`: still the one-pass escaping -/
-theorem escapeLike_eq_lit_percent (p : List Char) : escapeLike '%' p = lit '%' p := by
-  have e : escapeLike '%' p = replace1 '_' ['%', '_'] (replace1 '%' ['%', '%'] p) := by
-    simp [escapeLike_unfold]
-  rw [e]
-  clear e
-  induction p with
-  | nil => rfl
-  | cons c cs ih =>
-    by_cases hp : c = '%'
-    · subst hp
-      have : ('%' : Char) ≠ '_' := by decide
-      simp [replace1, lit, ih, this]
-    · by_cases hu : c = '_'
-      · subst hu
-        simp [replace1, lit, ih]
-      · simp [replace1, lit, hp, hu, ih]
-
-/-- `escape="_"`: only when the operand has no `%` (the `_` inserted in front of a `%` by
-    the second replace is doubled again by the third) -/
-theorem escapeLike_eq_lit_underscore (p : List Char) (h : '%' ∉ p) :
-    escapeLike '_' p = lit '_' p := by
-  have e : escapeLike '_' p = replace1 '_' ['_', '_'] (replace1 '%' ['_', '%'] p) := by
-    simp [escapeLike_unfold]
-  rw [e]
-  clear e
-  induction p with
-  | nil => rfl
-  | cons c cs ih =>
-    have hc : c ≠ '%' := fun hh => h (by simp [hh])
-    have hcs : '%' ∉ cs := fun hh => h (by simp [hh])
-    by_cases hu : c = '_'
-    · subst hu
-      simp [replace1, lit, ih hcs]
-    · simp [replace1, lit, hc, hu, ih hcs]
+    have h : (escapedChars.contains c || (escapesEscape && c == esc)) = true ↔
+        (c = esc ∨ c = '%' ∨ c = '_') := by
+      rw [gen_table.1, gen_table.2]
+      simp only [List.contains_cons, List.contains_nil, Bool.or_false, Bool.true_and,
+        Bool.or_eq_true, beq_iff_eq]
+      constructor
+      · rintro ((h | h) | h)
+        · exact Or.inr (Or.inl h)
+        · exact Or.inr (Or.inr h)
+        · exact Or.inl h
+      · rintro (h | h | h)
+        · exact Or.inr h
+        · exact Or.inl (Or.inl h)
+        · exact Or.inl (Or.inr h)
+    by_cases hc : c = esc ∨ c = '%' ∨ c = '_'
+    · simp only [escapeLike, lit, if_pos hc, if_pos (h.2 hc), ih]
+    · have : ¬ ((escapedChars.contains c || (escapesEscape && c == esc)) = true) := fun hh => hc (h.1 hh)
+      simp only [escapeLike, lit, if_neg hc, this, ih]
+      rfl
 
 /-! ## prefix stripping under a character relation -/
 
@@ -137,87 +81,6 @@ theorem stripPrefix_isSome_iff (p s : List Char) :
 
 theorem eqv_false : eqv false = (· == ·) := by
   funext a b; simp [eqv]
-
-/-! ## SQLite matcher on an escaped literal -/
-
-section sqlite
-variable (nc : Bool) (esc : Char) (h1 : esc ≠ '%') (h2 : esc ≠ '_')
-include h1 h2
-
-theorem mAll_ordinary : mAll (some esc) = some '%' := by simp [mAll, h1]
-theorem mOne_ordinary : mOne (some esc) = some '_' := by simp [mOne, h2]
-
-/-- the top-level loop consumes an escaped literal exactly like a prefix comparison -/
-theorem mtch_lit (p rest s : List Char) :
-    mtch nc (some esc) (lit esc p ++ rest) s =
-      match stripPrefix (eqv nc) p s with
-      | some t => mtch nc (some esc) rest t
-      | none => .no := by
-  induction p generalizing s with
-  | nil => simp [lit, stripPrefix]
-  | cons c p ih =>
-    have hpe : ('%' : Char) ≠ esc := fun h => h1 h.symm
-    by_cases hc : c = esc ∨ c = '%' ∨ c = '_'
-    · simp only [lit, if_pos hc, List.cons_append]
-      rw [mtch.eq_def]
-      simp only [mAll_ordinary esc h1 h2, Option.some.injEq, beq_iff_eq, hpe, if_false, if_true]
-      cases s with
-      | nil => simp [stripPrefix]
-      | cons c2 s' =>
-        simp only [stripPrefix]
-        split
-        · exact ih s'
-        · rfl
-    · have hce : ¬ c = esc := fun h => hc (Or.inl h)
-      have hcp : ¬ c = '%' := fun h => hc (Or.inr (Or.inl h))
-      have hcu : ¬ c = '_' := fun h => hc (Or.inr (Or.inr h))
-      have hcp' : ¬ '%' = c := fun h => hcp h.symm
-      have hce' : ¬ esc = c := fun h => hce h.symm
-      have hcu' : ¬ '_' = c := fun h => hcu h.symm
-      simp only [lit, if_neg hc, List.cons_append]
-      rw [mtch.eq_def]
-      have hm : (some '_' == some c) = false := by simp [hcu']
-      simp only [mAll_ordinary esc h1 h2, mOne_ordinary esc h1 h2, Option.some.injEq, beq_iff_eq,
-        hcp', hce', if_false, hm, Bool.or_false]
-      cases s with
-      | nil => simp [stripPrefix]
-      | cons c2 s' =>
-        simp only [stripPrefix]
-        by_cases he : eqv nc c c2 = true
-        · simp only [he, if_true]; exact ih s'
-        · simp only [he]; rfl
-
-/-- after a `%`, an escaped literal `c :: p` starts a search for `c` -/
-theorem star_lit_cons (c : Char) (p rest s : List Char) :
-    star nc (some esc) (lit esc (c :: p) ++ rest) s =
-      search nc (mtch nc (some esc) (lit esc p ++ rest)) c s := by
-  have hpe : ('%' : Char) ≠ esc := fun h => h1 h.symm
-  have hue : ('_' : Char) ≠ esc := fun h => h2 h.symm
-  by_cases hc : c = esc ∨ c = '%' ∨ c = '_'
-  · simp only [lit, if_pos hc, List.cons_append]
-    rw [star.eq_def]
-    simp [mAll_ordinary esc h1 h2, mOne_ordinary esc h1 h2, hpe, hue]
-  · have hce : ¬ c = esc := fun h => hc (Or.inl h)
-    have hcp : ¬ c = '%' := fun h => hc (Or.inr (Or.inl h))
-    have hcu : ¬ c = '_' := fun h => hc (Or.inr (Or.inr h))
-    have hcp' : ¬ '%' = c := fun h => hcp h.symm
-    have hce' : ¬ esc = c := fun h => hce h.symm
-    have hcu' : ¬ '_' = c := fun h => hcu h.symm
-    simp only [lit, if_neg hc, List.cons_append]
-    rw [star.eq_def]
-    simp [mAll_ordinary esc h1 h2, mOne_ordinary esc h1 h2, hcp', hce', hcu']
-
-theorem star_nil (s : List Char) : star nc (some esc) [] s = .yes := by
-  rw [star.eq_def]
-
-theorem star_percent (s : List Char) : star nc (some esc) ['%'] s = .yes := by
-  rw [star.eq_def]; simp [mAll_ordinary esc h1 h2, star.eq_def]
-
-theorem mtch_percent (p s : List Char) :
-    mtch nc (some esc) ('%' :: p) s = star nc (some esc) p s := by
-  rw [mtch.eq_def]; simp [mAll_ordinary esc h1 h2]
-
-end sqlite
 
 /-- the search loop, when the continuation never aborts -/
 theorem search_yes_iff (nc : Bool) (f : List Char → R) (hf : ∀ t, f t ≠ .abort) (c : Char)
@@ -261,63 +124,142 @@ theorem search_yes_iff (nc : Bool) (f : List Char → R) (hf : ∀ t, f t ≠ .a
         · rw [if_neg he]; exact this
 
 
-/-! ## results of the three renderings on SQLite, any case mode -/
+/-! ## SQLite matcher on a pattern that spells a literal text -/
 
-section sqlite2
-variable (nc : Bool) (esc : Char) (h1 : esc ≠ '%') (h2 : esc ≠ '_')
-include h1 h2
+theorem mOne_ne (E : Option Char) {c : Char} (h : c ≠ '_') : (mOne E == some c) = false := by
+  have h' : ¬ '_' = c := fun hh => h hh.symm
+  unfold mOne; split <;> simp [h']
 
-theorem mtch_lit_end (p s : List Char) :
-    mtch nc (some esc) (lit esc p) s =
+theorem mOne_esc (E : Option Char) {e : Char} (h : E = some e) : (mOne E == some e) = false := by
+  by_cases he : e = '_'
+  · subst he; subst h; simp [mOne]
+  · exact mOne_ne E he
+
+/-- `Lit E p P`: under escape setting `E` the pattern `P` spells the literal text `p`
+    (plain characters stand for themselves, `escape + c` stands for `c`) -/
+inductive Lit (E : Option Char) : List Char → List Char → Prop
+  | nil : Lit E [] []
+  | plain {c : Char} {p P : List Char} : c ≠ '%' → c ≠ '_' → E ≠ some c → Lit E p P →
+      Lit E (c :: p) (c :: P)
+  | esc {e c : Char} {p P : List Char} : E = some e → Lit E p P → Lit E (c :: p) (e :: c :: P)
+
+section
+variable (nc : Bool) (E : Option Char) (hA : mAll E = some '%')
+include hA
+
+theorem esc_ne_percent {e : Char} (h : E = some e) : e ≠ '%' := by
+  intro he; subst he; subst h; simp [mAll] at hA
+
+theorem mtch_Lit {p P : List Char} (h : Lit E p P) (rest : List Char) :
+    ∀ s, mtch nc E (P ++ rest) s =
+      match stripPrefix (eqv nc) p s with
+      | some t => mtch nc E rest t
+      | none => .no := by
+  induction h with
+  | nil => intro s; simp [stripPrefix]
+  | @plain c p P h1 h2 h3 _ ih =>
+    intro s
+    have h1' : ¬ '%' = c := fun h => h1 h.symm
+    have hp : (some '%' == some c) = false := by simp [h1']
+    have hu : (mOne E == some c) = false := mOne_ne E h2
+    have he : (E == some c) = false := by simp [h3]
+    rw [List.cons_append, mtch.eq_def]
+    simp only [hA, hp, hu, he, Bool.false_eq_true, if_false, Bool.or_false]
+    cases s with
+    | nil => simp [stripPrefix]
+    | cons c2 s' =>
+      simp only [stripPrefix]
+      by_cases hq : eqv nc c c2 = true
+      · simp only [hq, if_true]; exact ih s'
+      · simp only [hq]; rfl
+  | @esc e c p P hE _ ih =>
+    intro s
+    have h1' : ¬ '%' = e := fun h => esc_ne_percent E hA hE h.symm
+    have hp : (some '%' == some e) = false := by simp [h1']
+    have he : (E == some e) = true := by simp [hE]
+    rw [List.cons_append, List.cons_append, mtch.eq_def]
+    simp only [hA, hp, he, Bool.false_eq_true, if_false, if_true]
+    cases s with
+    | nil => simp [stripPrefix]
+    | cons c2 s' =>
+      simp only [stripPrefix]
+      by_cases hq : eqv nc c c2 = true
+      · simp only [hq, if_true]; exact ih s'
+      · simp only [hq]; rfl
+
+theorem star_Lit_cons {c : Char} {p P : List Char} (h : Lit E (c :: p) P) :
+    ∃ P', Lit E p P' ∧ ∀ rest s, star nc E (P ++ rest) s = search nc (mtch nc E (P' ++ rest)) c s := by
+  cases h with
+  | @plain _ _ P' h1 h2 h3 hl =>
+    refine ⟨P', hl, fun rest s => ?_⟩
+    have h1' : ¬ '%' = c := fun h => h1 h.symm
+    have hp : (some '%' == some c) = false := by simp [h1']
+    have hu : (mOne E == some c) = false := mOne_ne E h2
+    have he : (E == some c) = false := by simp [h3]
+    rw [List.cons_append, star.eq_def]
+    simp [hA, hp, hu, he]
+  | @esc e _ _ P' hE hl =>
+    refine ⟨P', hl, fun rest s => ?_⟩
+    have h1' : ¬ '%' = e := fun h => esc_ne_percent E hA hE h.symm
+    have hp : (some '%' == some e) = false := by simp [h1']
+    have hu : (mOne E == some e) = false := mOne_esc E hE
+    have he : (E == some e) = true := by simp [hE]
+    rw [List.cons_append, List.cons_append, star.eq_def]
+    simp [hA, hp, hu, he]
+
+theorem star_nil' (s : List Char) : star nc E [] s = .yes := by
+  rw [star.eq_def]
+
+theorem star_percent' (s : List Char) : star nc E ['%'] s = .yes := by
+  rw [star.eq_def]; simp [hA, star.eq_def]
+
+theorem mtch_percent' (p s : List Char) : mtch nc E ('%' :: p) s = star nc E p s := by
+  rw [mtch.eq_def]; simp [hA]
+
+theorem mtch_Lit_end {p P : List Char} (h : Lit E p P) (s : List Char) :
+    mtch nc E P s =
       match stripPrefix (eqv nc) p s with
       | some [] => .yes
       | _ => .no := by
-  have := mtch_lit nc esc h1 h2 p [] s
+  have := mtch_Lit nc E hA h [] s
   rw [List.append_nil] at this
   rw [this]
   cases hsp : stripPrefix (eqv nc) p s with
   | none => rfl
   | some t => cases t <;> simp [mtch]
 
-theorem mtch_lit_percent (p s : List Char) :
-    mtch nc (some esc) (lit esc p ++ ['%']) s =
-      if (stripPrefix (eqv nc) p s).isSome then .yes else .no := by
-  rw [mtch_lit nc esc h1 h2]
+theorem mtch_Lit_percent {p P : List Char} (h : Lit E p P) (s : List Char) :
+    mtch nc E (P ++ ['%']) s = if (stripPrefix (eqv nc) p s).isSome then .yes else .no := by
+  rw [mtch_Lit nc E hA h]
   cases hsp : stripPrefix (eqv nc) p s with
   | none => rfl
-  | some t => simp [mtch_percent nc esc h1 h2, star_nil nc esc h1 h2]
+  | some t => simp [mtch_percent' nc E hA, star_nil' nc E hA]
 
-theorem mtch_lit_end_ne_abort (p s : List Char) : mtch nc (some esc) (lit esc p) s ≠ .abort := by
-  rw [mtch_lit_end nc esc h1 h2]; split <;> simp
-
-theorem mtch_lit_percent_ne_abort (p s : List Char) :
-    mtch nc (some esc) (lit esc p ++ ['%']) s ≠ .abort := by
-  rw [mtch_lit_percent nc esc h1 h2]; split <;> simp
-
-/-- `lit p ++ '%'` (startswith) -/
-theorem sqlite_startswith_raw (p s : List Char) :
-    likeSqlite nc (some esc) (wrap .startswith (lit esc p)) s =
-      (stripPrefix (eqv nc) p s).isSome := by
-  simp only [likeSqlite, wrap, mtch_lit_percent nc esc h1 h2]
+theorem sqlite_startswith_Lit {p P : List Char} (h : Lit E p P) (s : List Char) :
+    likeSqlite nc E (wrap .startswith P) s = (stripPrefix (eqv nc) p s).isSome := by
+  simp only [likeSqlite, wrap, mtch_Lit_percent nc E hA h]
   cases (stripPrefix (eqv nc) p s).isSome <;> simp
 
-/-- `'%' ++ lit p` (endswith) -/
-theorem sqlite_endswith_raw (p s : List Char) :
-    likeSqlite nc (some esc) (wrap .endswith (lit esc p)) s = true ↔
+theorem sqlite_endswith_Lit {p P : List Char} (h : Lit E p P) (s : List Char) :
+    likeSqlite nc E (wrap .endswith P) s = true ↔
       ∃ pre post, s = pre ++ post ∧ stripPrefix (eqv nc) p post = some [] := by
-  simp only [likeSqlite, wrap, mtch_percent nc esc h1 h2, beq_iff_eq]
+  simp only [likeSqlite, wrap, mtch_percent' nc E hA, beq_iff_eq]
   cases p with
   | nil =>
-    simp only [lit, star_nil nc esc h1 h2, true_iff]
+    cases h
+    simp only [star_nil' nc E hA, true_iff]
     exact ⟨s, [], by simp, rfl⟩
   | cons c p =>
-    have := star_lit_cons nc esc h1 h2 c p [] s
+    obtain ⟨P', hl, hstar⟩ := star_Lit_cons nc E hA h
+    have := hstar [] s
     simp only [List.append_nil] at this
-    rw [this, search_yes_iff nc _ (mtch_lit_end_ne_abort nc esc h1 h2 p)]
+    have hna : ∀ t, mtch nc E P' t ≠ .abort := by
+      intro t; rw [mtch_Lit_end nc E hA hl]; split <;> simp
+    rw [this, search_yes_iff nc _ hna]
     constructor
     · rintro ⟨pre, c2, post, e, he, hm⟩
       refine ⟨pre, c2 :: post, e, ?_⟩
-      rw [mtch_lit_end nc esc h1 h2] at hm
+      rw [mtch_Lit_end nc E hA hl] at hm
       simp only [stripPrefix, he, if_true]
       split at hm <;> simp_all
     · rintro ⟨pre, post, e, hs⟩
@@ -328,25 +270,27 @@ theorem sqlite_endswith_raw (p s : List Char) :
         split at hs
         · rename_i he
           refine ⟨pre, c2, post, e, he, ?_⟩
-          rw [mtch_lit_end nc esc h1 h2, hs]
+          rw [mtch_Lit_end nc E hA hl, hs]
         · cases hs
 
-/-- `'%' ++ lit p ++ '%'` (contains) -/
-theorem sqlite_contains_raw (p s : List Char) :
-    likeSqlite nc (some esc) (wrap .contains (lit esc p)) s = true ↔
+theorem sqlite_contains_Lit {p P : List Char} (h : Lit E p P) (s : List Char) :
+    likeSqlite nc E (wrap .contains P) s = true ↔
       ∃ pre post, s = pre ++ post ∧ (stripPrefix (eqv nc) p post).isSome = true := by
-  simp only [likeSqlite, wrap, mtch_percent nc esc h1 h2, beq_iff_eq]
+  simp only [likeSqlite, wrap, mtch_percent' nc E hA, beq_iff_eq]
   cases p with
   | nil =>
-    simp only [lit, List.nil_append, star_percent nc esc h1 h2, true_iff]
+    cases h
+    simp only [List.nil_append, star_percent' nc E hA, true_iff]
     exact ⟨[], s, by simp, rfl⟩
   | cons c p =>
-    rw [star_lit_cons nc esc h1 h2 c p ['%'] s,
-      search_yes_iff nc _ (mtch_lit_percent_ne_abort nc esc h1 h2 p)]
+    obtain ⟨P', hl, hstar⟩ := star_Lit_cons nc E hA h
+    have hna : ∀ t, mtch nc E (P' ++ ['%']) t ≠ .abort := by
+      intro t; rw [mtch_Lit_percent nc E hA hl]; split <;> simp
+    rw [hstar ['%'] s, search_yes_iff nc _ hna]
     constructor
     · rintro ⟨pre, c2, post, e, he, hm⟩
       refine ⟨pre, c2 :: post, e, ?_⟩
-      rw [mtch_lit_percent nc esc h1 h2] at hm
+      rw [mtch_Lit_percent nc E hA hl] at hm
       simp only [stripPrefix, he, if_true]
       split at hm <;> simp_all
     · rintro ⟨pre, post, e, hs⟩
@@ -357,10 +301,21 @@ theorem sqlite_contains_raw (p s : List Char) :
         split at hs
         · rename_i he
           refine ⟨pre, c2, post, e, he, ?_⟩
-          rw [mtch_lit_percent nc esc h1 h2, if_pos hs]
+          rw [mtch_Lit_percent nc E hA hl, if_pos hs]
         · cases hs
 
-end sqlite2
+end
+
+/-- the escaped operand spells the operand, for every escape character -/
+theorem lit_Lit (esc : Char) (p : List Char) : Lit (some esc) p (lit esc p) := by
+  induction p with
+  | nil => exact .nil
+  | cons c p ih =>
+    by_cases hc : c = esc ∨ c = '%' ∨ c = '_'
+    · simp only [lit, if_pos hc]; exact .esc rfl ih
+    · simp only [lit, if_neg hc]
+      refine .plain (fun h => hc (Or.inr (Or.inl h))) (fun h => hc (Or.inr (Or.inr h))) ?_ ih
+      intro h; exact hc (Or.inl (Option.some.inj h).symm)
 
 /-! ## ASCII lower-casing -/
 
